@@ -1,6 +1,18 @@
 package rules
 
+import "verif/checker/internal/core"
+
 func init() {
+	register(&Prop{
+		ID: "C08",
+		Rules: []*Rule{rCmpGuard, {Name: "R-BOUNDS", Doc: rBounds.Doc + " (restricted to package markers: equalMarks' lock-step indexing is also the 'difference in chain length makes them different' clause)",
+			Run: func(c *core.Ctx) {
+				runBounds(c, func(rel, fn string) bool { return rel == "markers" })
+			}}, rRecover, rNilSafe},
+		Explain: "Decides the totality clauses of Is/IsAny and the chain-length clause of mark equivalence: no unguarded interface comparison, no unproven lock-step index in markers, Error() of foreign errors only under recover, and no nil dereference reachable with nil inputs over the whole accessor surface. " +
+			"NOT decided: reflexivity, monotonicity under wrappers, IsAny = OR of Is, and 'exactly when' (semantic equivalences over all pairs of errors).",
+		Trusted: []string{"go/ssa", "reflect.Type.Comparable semantics", "nilness lattice"},
+	})
 	register(&Prop{
 		ID:    "C16",
 		Rules: []*Rule{rDepth},
